@@ -117,8 +117,8 @@ def frame_of(prog, path, atom_helper):
         pair_frame = seq
     else:
         problems.append("could not find the two recursive calls hashing the children of a pair")
-    # atom frame
-    atom_frame = None
+    # atom frame(s): hasher feeds outside the pair arm, grouped into dominance chains (one chain = one way of hashing an atom)
+    atom_frames = None
     g = prog.fn(atom_helper) if atom_helper else f
     if g is None:
         problems.append("atom helper %s not found" % atom_helper)
@@ -128,37 +128,69 @@ def frame_of(prog, path, atom_helper):
         if atom_helper is None:
             # events of the atom arm: not dominated by a child-hashing recursive call
             events = [bb for bb in events if not any(g.dominates(cb, bb) for cb, _, _ in child_calls)]
-        seq = []
-        base_seen = False
+        chains = []
         for bb in dom_sorted(g, events):
-            t = g.term(bb)
-            data = t["args"][1] if len(t["args"]) > 1 else None
-            recv = t["args"][0]
-            if "concat" in (callee_of(t) or "") and not base_seen:
-                base_seen = True
-                ints = [v for v in const_ints(gfl.consts_into([op_local(recv)])) if 0 < v < 256] if op_local(recv) is not None else []
-                if ints:
-                    seq.append(ints[0] if len(set(ints)) == 1 else sorted(set(ints)))
-            dl = op_local(data) if data else None
-            ints = [v for v in const_ints(gfl.consts_into([dl])) if 0 < v < 256] if dl is not None else []
-            if ints and len(set(ints)) == 1 and not _from_param_or_atom(g, gfl, dl):
-                seq.append(ints[0])
+            for ch in chains:
+                if g.dominates(ch[-1], bb):
+                    ch.append(bb)
+                    break
             else:
-                seq.append("bytes")
-        atom_frame = seq
-    return pair_frame, atom_frame, problems
+                chains.append([bb])
+        atom_frames = []
+        for ch in chains:
+            seq = []
+            base_seen = False
+            for bb in ch:
+                t = g.term(bb)
+                data = t["args"][1] if len(t["args"]) > 1 else None
+                recv = t["args"][0]
+                if "concat" in (callee_of(t) or "") and not base_seen:
+                    base_seen = True
+                    ints = [v for v in const_ints(gfl.consts_into([op_local(recv)])) if 0 < v < 256] if op_local(recv) is not None else []
+                    if ints:
+                        seq.append(ints[0] if len(set(ints)) == 1 else sorted(set(ints)))
+                dl = op_local(data) if data else None
+                if dl is None:
+                    seq.append(op_int(data) if data is not None and op_int(data) is not None else "?")
+                    continue
+                seq.append(classify_bytes(g, gfl, dl))
+            atom_frames.append(seq)
+        # arguments handed to the atom helper by the main function
+        if atom_helper:
+            for bb, t in f.calls():
+                if callee_of(t) == atom_helper:
+                    l = op_local(t["args"][0])
+                    if l is not None:
+                        k = classify_bytes(f, fl, l, allow_empty_const=True)
+                        if k != "bytes":
+                            atom_frames.append([1, k])
+    return pair_frame, atom_frames, problems
 
 
-def _from_param_or_atom(g, gfl, l):
+COPYISH = ("Allocator::atom", "::as_ref", "::to_vec", "::clone", "Bytes::new", "::deref", "::borrow", "::as_slice", "Bytes::data",
+           "::as_bytes", "::into", "::from", "::to_owned", "::into_vec", "exchange_malloc", "box_new", "Box::<T>::new")
+NORMALISERS = ("util::u8_from_number",)
+
+
+def classify_bytes(g, gfl, l, allow_empty_const=False):
+    """'bytes' when the local is the atom's stored bytes through copies only (allocator accessor, a byte parameter, an
+    Atom/QuotedString payload) or the crate's integer normaliser; a small constant when it is one; else 'computed:<callees>'."""
     src = gfl.back_pure([l])
-    if any(1 <= x <= g.argc for x in src):
-        # derives from a parameter: the atom's bytes (or the allocator)
-        for x in src:
-            for bb, t in gfl.call_defs.get(x, []):
-                if (callee_of(t) or "").endswith("Allocator::atom") or (callee_of(t) or "").endswith("::to_vec"):
-                    return True
-        return any(1 <= x <= g.argc and ("u8" in g.local_ty(x) or "Vec" in g.local_ty(x)) for x in src)
-    return False
+    callees = set()
+    for x in src:
+        for _, t in gfl.call_defs.get(x, []):
+            callees.add(callee_of(t) or t.get("callee") or "?")
+    other = sorted(c for c in callees if not any(c.endswith(a) or a + ">" in c for a in COPYISH) and c not in NORMALISERS)
+    from_store = any(c.endswith("Allocator::atom") or c in NORMALISERS for c in callees) or \
+        any(1 <= x <= g.argc and ("u8" in g.local_ty(x) or "SExp" in g.local_ty(x)) for x in src)
+    ints = [v for v in const_ints(gfl.consts_into([l])) if 0 <= v < 256]
+    if not other and from_store:
+        return "bytes"
+    if not other and not from_store and ints and len(set(ints)) == 1:
+        return ints[0]
+    if not other and not from_store and allow_empty_const and not ints:
+        return "bytes"      # the empty atom: &[]
+    return "computed:" + ",".join(c.rsplit("::", 1)[-1] for c in other) if other else "?"
 
 
 def run(tier="quick", replay=None):
@@ -187,9 +219,12 @@ def run(tier="quick", replay=None):
                 "auto: %s frames a pair as sha256(0x02 || H(first) || H(rest))" % what,
                 "%s (%s) frames a pair as %s; the tree hash is sha256(0x02 || H(first) || H(rest)) — its hashes would disagree "
                 "with the other implementations and with consensus" % (path, what, pf), fn=path)
-        R.check(af == [1, "bytes"], "R07.frame", "R07.frame|atom|%s" % path, site,
-                "auto: %s frames an atom as sha256(0x01 || bytes)" % what,
-                "%s (%s) frames an atom as %s; the tree hash is sha256(0x01 || bytes)" % (path, what, af), fn=path)
+        bad = [fr for fr in af if fr != [1, "bytes"]]
+        R.check(bool(af) and not bad, "R07.frame", "R07.frame|atom|%s" % path, site,
+                "auto: %s frames an atom as sha256(0x01 || the atom's stored bytes) (%d way(s))" % (what, len(af)),
+                "%s (%s) frames an atom as %s; the tree hash is sha256(0x01 || bytes) over the atom's stored bytes (allocator "
+                "accessor, atom payload or u8_from_number) — bytes recomputed by another routine are an unchecked second encoding" % (
+                    path, what, bad), fn=path)
     R.floor("R07.frame", "tree-hash implementations", n, 3)
 
     # ---------------- R07.zero ------------------------------------------------------------
@@ -226,6 +261,22 @@ def run(tier="quick", replay=None):
             "hashing and CLVM conversion of the rich form disagree on when integer zero is the empty atom (sha256tree tests %s, "
             "convert_to_clvm_rs tests %s): a value's tree hash would differ from the hash of its CLVM encoding in one int mode" % (
                 sorted(g_hash) if g_hash is not None else None, sorted(g_conv) if g_conv is not None else None))
+
+    # mode-unaware nil tests: SExp::nilp() answers true for Integer 0 in BOTH int modes, so deciding "this is the empty atom"
+    # with it inside a converter/hasher loses the legacy-mode encoding [0] (0x00 converted from CLVM is Integer 0 there)
+    NILP = "compiler::sexp::SExp::nilp"
+    control = prog.fn("compiler::sexp::SExp::equal_to")
+    R.check(control is not None and any(callee_of(t) == NILP for _, t in control.calls()), "R07.zero", "R07.zero|control|nilp-resolves",
+            "compiler::sexp", "auto: positive control - equal_to's call of SExp::nilp is visible to the rule",
+            "positive control failed: SExp::nilp is not seen called from equal_to (callee naming changed?)")
+    for root in ("compiler::clvm::convert_to_clvm_rs", "compiler::clvm::sha256tree", "compiler::debug::build_table_mut"):
+        hits = [(g, bb) for g in prog.family(root) for bb, t in g.calls() if callee_of(t) == NILP]
+        g0 = prog.fn(root)
+        R.check(g0 is not None and not hits, "R07.zero", "R07.zero|mode-unaware-nil-test|%s" % root,
+                hits[0][0].loc(hits[0][1]) if hits else (("%s:%s" % (g0.file, g0.line)) if g0 else root),
+                "auto: %s never decides nil-ness with the mode-unaware SExp::nilp" % root,
+                "%s decides nil-ness with SExp::nilp(), which is true for Integer 0 in both integer modes: in legacy mode the atom "
+                "0x00 (Integer 0 after conversion from CLVM) would be encoded/hashed as the empty atom" % root, fn=root)
 
     # ---------------- R07.hash ------------------------------------------------------------
     # k1 == k2 must imply hash(k1) == hash(k2): SExp::equal_to ignores locations / spelling and compares atoms by their
